@@ -567,8 +567,8 @@ func (r *refactorer) moduleAugment() bool {
 			// trailing cases
 			last = -1
 			for i, k := range h.s.Kids {
-				if k.Kw == "case" {
-					last = i
+				if k.Kw == "case" || (isDataKw(k.Kw) && k.Kw != "uses") {
+					last = i // cases, and shorthand cases (each node its own implicit case)
 				}
 			}
 		}
@@ -587,7 +587,7 @@ func (r *refactorer) moduleAugment() bool {
 		if k.Kw == "uses" && (h.s.Kw == "list" || usesLocalGrouping(k, r.mod)) {
 			break // may carry the key leaf / would leave the scope of its grouping
 		}
-		if (h.s.Kw == "choice" && k.Kw == "case" && !usesLocalGrouping(k, r.mod)) || (h.s.Kw != "choice" && isDataKw(k.Kw) && !isKeyLeaf(h.s, k) && !usesLocalGrouping(k, r.mod)) {
+		if (h.s.Kw == "choice" && (k.Kw == "case" || (isDataKw(k.Kw) && k.Kw != "uses")) && !usesLocalGrouping(k, r.mod)) || (h.s.Kw != "choice" && isDataKw(k.Kw) && !isKeyLeaf(h.s, k) && !usesLocalGrouping(k, r.mod)) {
 			n++
 		} else {
 			break
@@ -600,13 +600,20 @@ func (r *refactorer) moduleAugment() bool {
 	take := rapid.IntRange(1, n).Draw(r.t, "aug-n")
 	moved := append([]*yst{}, h.s.Kids[len(h.s.Kids)-take:]...)
 	h.s.Kids = h.s.Kids[:len(h.s.Kids)-take]
-	if h.s.Kw == "case" && len(h.s.Kids) == 0 || h.s.Kw == "choice" && countKw(h.s, "case") == 0 {
+	if h.s.Kw == "case" && len(h.s.Kids) == 0 || h.s.Kw == "choice" && countKw(h.s, "case")+countData(h.s) == 0 {
 		h.s.Kids = append(h.s.Kids, moved...)
 		return false
 	}
 	aug := st("augment", h.path)
 	aug.Kids = moved
-	if f := commonFeature(moved); f != "" && rapid.Bool().Draw(r.t, "hoist-feature") {
+	allCases := true
+	for _, k := range moved {
+		if k.Kw != "case" {
+			allCases = false
+		}
+	}
+	// (a shorthand node's if-feature guards the node, not its implicit case, which the inline form writes out)
+	if f := commonFeature(moved); f != "" && (h.s.Kw != "choice" || allCases) && rapid.Bool().Draw(r.t, "hoist-feature") {
 		stripFeature(moved)
 		aug.Kids = append([]*yst{st("if-feature", f)}, moved...)
 		r.steps = append(r.steps, "augment-if-feature")
@@ -760,6 +767,28 @@ func (r *refactorer) toSubmodule() bool {
 	return true
 }
 
+// shorthandCaseAny converts the first eligible case without drawing.
+func (r *refactorer) shorthandCaseAny() bool {
+	var done bool
+	var walk func(x *yst)
+	walk = func(x *yst) {
+		for i, k := range x.Kids {
+			if done {
+				return
+			}
+			if x.Kw == "choice" && k.Kw == "case" && len(k.Kids) == 1 && isDataKw(k.Kids[0].Kw) && k.Kids[0].Kw != "uses" && k.Kids[0].Kw != "choice" && k.Arg == k.Kids[0].Arg {
+				x.Kids[i] = k.Kids[0]
+				done = true
+				r.steps = append(r.steps, "shorthand-case")
+				return
+			}
+			walk(k)
+		}
+	}
+	walk(r.mod)
+	return done
+}
+
 // shorthandCase writes a case with exactly one data child in shorthand form.
 func (r *refactorer) shorthandCase() bool {
 	var cands [][2]*yst
@@ -865,6 +894,12 @@ func c01Gen0(t *rapid.T) c01Case {
 	var inl strings.Builder
 	mod.render(&inl, "")
 	r := &refactorer{t: t, mod: mod.clone()}
+	if rapid.Bool().Draw(t, "all-shorthand") {
+		// every case named like its only child is written in shorthand form, so that several of them can move into
+		// one augment of the choice
+		for i := 0; i < 12 && r.shorthandCaseAny(); i++ {
+		}
+	}
 	if srcName != "" && rapid.IntRange(0, 3).Draw(t, "share-twin") > 0 {
 		r.shareTwin(srcName, twinName, mods)
 	}
@@ -976,6 +1011,9 @@ func (g *c01Gen) drawMods(twin *yst) []c01Mod {
 				if !hasKid(tg.n, "default") && !hasKid(tg.n, "mandatory") {
 					opts = append(opts, "mandatory")
 				}
+				if kidArg(tg.n, "mandatory") == "true" {
+					opts = append(opts, "mandatory-false", "mandatory-false")
+				}
 				if kidArg(tg.n, "type") == "string" && !hasKid(tg.n, "mandatory") {
 					opts = append(opts, "default")
 				}
@@ -1007,6 +1045,8 @@ func (g *c01Gen) drawMods(twin *yst) []c01Mod {
 			m.Arg = "false"
 		case "mandatory":
 			m.Arg = "true"
+		case "mandatory-false":
+			m.Kw, m.Arg = "mandatory", "false"
 		case "default":
 			m.Arg = "rv"
 		case "min-elements":
@@ -1170,7 +1210,44 @@ func c01Flat(files map[string]string, entry string, on []string) (map[string]str
 			out[k] = v
 		}
 	}
+	dropEmptyCases(out)
 	return out, dd, nil
+}
+
+// dropEmptyCases removes, from a flattened dump, cases that hold no data definition (all their nodes are left out by
+// if-feature) and the CaseIdents lists: whether such an empty case is kept is not observable through data, and the
+// library keeps it for a node written directly in the choice but not for one that arrives through an augment.
+func dropEmptyCases(flat map[string]string) {
+	cases := map[string]bool{}
+	for k := range flat {
+		if i := strings.LastIndex(k, "/Cases/"); i >= 0 {
+			rest := k[i+len("/Cases/"):]
+			if j := strings.IndexByte(rest, '/'); j >= 0 {
+				cases[k[:i+len("/Cases/")+j]] = true
+			}
+		}
+	}
+	for cs := range cases {
+		has := false
+		for k := range flat {
+			if strings.HasPrefix(k, cs+"/DataDefinitions[") {
+				has = true
+				break
+			}
+		}
+		if !has {
+			for k := range flat {
+				if strings.HasPrefix(k, cs+"/") {
+					delete(flat, k)
+				}
+			}
+		}
+	}
+	for k := range flat {
+		if strings.Contains(lastSeg(k), "CaseIdents[") {
+			delete(flat, k)
+		}
+	}
 }
 
 func c01Run(c c01Case, o *hx.Obs) {
@@ -1208,6 +1285,7 @@ func c01Run(c c01Case, o *hx.Obs) {
 	o.Class("features-on=%d", len(c.On))
 	if c.Tree != nil {
 		exp := c01Expect(c.Tree, c.On)
+		dropEmptyCases(exp)
 		for _, k := range sortedKeys(exp) {
 			g, ok := want[k]
 			if !ok {
